@@ -302,6 +302,10 @@ impl<H: Hal, T: Transport, const QUEUE_SIZE: usize> VirtIONetRaw<H, T, QUEUE_SIZ
         // until calling `receive_complete` when the request is complete.
         let token = unsafe { self.receive_begin(rx_buf)? };
         while self.poll_receive().is_none() {
+            #[cfg(feature = "verif-hooks")]
+            crate::verif_hooks::fire(crate::verif_hooks::Point::Spin(
+                crate::verif_hooks::SpinSite::NetReceiveWait,
+            ));
             core::hint::spin_loop();
         }
         // SAFETY: This `rx_buf` is the same one passed to `receive_begin`.
